@@ -62,7 +62,7 @@ type acctObs struct {
 	Status bool // limit statuses record present (never on the unchanged tree)
 }
 type snapshot struct {
-	A     [N + 2]acctObs
+	A     [N]acctObs
 	Marks map[string]string // "f t h" -> v
 }
 
@@ -131,7 +131,7 @@ var denomCode = map[string]int64{"ukex": 0, "uusd": 1, "ueth": 2}
 func (w *world) observe(ctx sdk.Context) snapshot {
 	var s snapshot
 	ck := w.app.CustodyKeeper
-	for i := 0; i < N+2; i++ {
+	for i := 0; i < N; i++ {
 		a := w.addrs[i]
 		o := &s.A[i]
 		st := ck.GetCustodyInfoByAddress(ctx, a)
@@ -213,7 +213,7 @@ func (w *world) observe(ctx sdk.Context) snapshot {
 
 func diff(a, b snapshot) []string {
 	var ps []string
-	for i := 0; i < N+2; i++ {
+	for i := 0; i < N; i++ {
 		x, y := a.A[i], b.A[i]
 		if x.Set != y.Set {
 			ps = append(ps, fmt.Sprintf("PSet %d %s", i, y.Set))
@@ -262,8 +262,8 @@ type kp struct {
 type op struct {
 	Kind    string   `json:"kind"`
 	Signer  int      `json:"signer"`
-	Target  int      `json:"target,omitempty"` // approve/decline/confirm: guarded account; bank: destination
-	To      int      `json:"to,omitempty"`
+	Target  int      `json:"target"` // approve/decline/confirm: guarded account; bank: destination
+	To      int      `json:"to"`
 	Amt     int64    `json:"amount,omitempty"`
 	Adds    []int    `json:"adds,omitempty"`
 	Rem     int      `json:"remove,omitempty"`
@@ -419,67 +419,444 @@ func (w *world) exec(ctx sdk.Context, deco customante.CustodyDecorator, o *op, m
 	}
 }
 
-// ---------------------------------------------------------------- generator
-type gen struct {
-	r      *hx.Rng
+// ---------------------------------------------------------------- histories
+type hist struct {
 	w      *world
-	sec    [N]int // index of the secret whose hash is (believed to be) the current key of account i; -1 none
+	r      *hx.Rng
+	ctx    sdk.Context
+	deco   customante.CustodyDecorator
+	dist   hx.Counter
+	id     int
+	label  string
+	prev   snapshot
+	steps  []string
+	ops    []op
+	sec    [N]int // index of the secret whose digest is (believed to be) the current key of account i; -1 none
 	nsec   int
-	sends  []string // tx hashes of custody sends in this history (full, lower-case)
+	sends  []string // tx hashes of the custody sends of this history
 	sendBy []int
 	pws    []string
 	txn    int
-	hist   int
 }
 
 func secret(i int) string { return fmt.Sprintf("secret-%d", i) }
 func pword(i int) string  { return fmt.Sprintf("pw-%d", i) }
 
-func (g *gen) freshKey(acct int, commit bool) (string, int) {
-	g.nsec++
-	j := g.nsec % 12
-	return sha(secret(j)), j
-}
-
-func (g *gen) keyed(signer int, tgt string, right bool) (kp, int) {
-	old := "wrong-secret"
-	if right && g.sec[signer] >= 0 {
-		old = secret(g.sec[signer])
-	}
-	nk, j := g.freshKey(signer, false)
-	next := ""
-	switch g.r.Intn(6) {
-	case 0:
-		next = g.w.addrs[g.r.Intn(N)].String()
-	case 1:
-		next = garbage
-	}
-	return kp{Old: old, New: nk, Next: next, Tgt: tgt}, j
-}
-
-var modes = []uint64{0, 1, 34, 50, 51, 67, 100, 100, 150}
-
-func upperVariant(h string) string { return strings.ToUpper(h[:8]) + h[8:] }
-
-func (g *gen) txBytes() string {
+func (h *hist) txBytes() string {
 	for k := 0; ; k++ {
-		tb := fmt.Sprintf("tx-%d-%d-%d", g.hist, g.txn, k)
-		h := sha(tb)
-		if strings.ToUpper(h[:8]) != h[:8] {
-			if _, dup := g.w.hashes[h]; !dup {
+		tb := fmt.Sprintf("tx-%d-%d-%d", h.id, h.txn, k)
+		d := sha(tb)
+		if strings.ToUpper(d[:8]) != d[:8] {
+			if _, dup := h.w.hashes[d]; !dup {
 				return tb
 			}
 		}
 	}
 }
 
+// do executes one transaction on the real code and records operation, outcome and state patch
+func (h *hist) do(o op, k kp) *op {
+	h.txn++
+	if o.TxBytes == "" {
+		o.TxBytes = h.txBytes()
+	}
+	if h.r != nil {
+		o.Filler = h.r.Chance(15)
+	}
+	msg, coq := h.w.build(&o, k)
+	h.w.exec(h.ctx, h.deco, &o, msg)
+	cur := h.w.observe(h.ctx)
+	code := map[string]int{"ok": 0, "rejected": 1, "panic": 2}[o.Outcome]
+	h.steps = append(h.steps, fmt.Sprintf("(%s, %d, %s)", coq, code, hx.List(diff(h.prev, cur))))
+	h.prev = cur
+	h.dist.Inc(o.Kind + ":" + o.Outcome)
+	h.ops = append(h.ops, o)
+	return &h.ops[len(h.ops)-1]
+}
+
+// keyed runs a settings message; right: OldKey is the preimage of the signer's own current key
+// (what the ante decorator checks); nextAddr: NextAddress put into the message
+func (h *hist) keyed(o op, tgt string, right bool, nextAddr string) *op {
+	old := "wrong-secret"
+	if right && h.sec[o.Signer] >= 0 {
+		old = secret(h.sec[o.Signer])
+	}
+	h.nsec++
+	j := h.nsec % 12
+	res := h.do(o, kp{Old: old, New: sha(secret(j)), Next: nextAddr, Tgt: tgt})
+	if res.Outcome == "ok" && o.Kind != "disable_custody" && o.Kind != "drop_custody" {
+		ka := o.Signer
+		if tgt != "" && o.Kind != "create_custody" {
+			ka = -1
+			if i, ok := h.w.idx[tgt]; ok {
+				ka = i
+			}
+		}
+		if ka >= 0 && ka < N {
+			h.sec[ka] = j
+		}
+	}
+	return res
+}
+
+func (h *hist) send(s, to int, amt int64, pwi int, rawPw bool, rew []int64) *op {
+	pw := sha(pword(pwi))
+	if rawPw {
+		pw = pword(pwi)
+	}
+	o := h.do(op{Kind: "custody_send", Signer: s, To: to, Amt: amt, Pw: pw, Rew: rew}, kp{})
+	h.sends = append(h.sends, o.Hash)
+	h.sendBy = append(h.sendBy, s)
+	h.pws = append(h.pws, pword(pwi))
+	return o
+}
+func (h *hist) approve(f, t int, hash string) *op {
+	return h.do(op{Kind: "approve", Signer: f, Target: t, Hash: hash}, kp{})
+}
+func (h *hist) decline(f, t int, hash string) *op {
+	return h.do(op{Kind: "decline", Signer: f, Target: t, Hash: hash}, kp{})
+}
+func (h *hist) confirm(f, t int, hash, pw string) *op {
+	return h.do(op{Kind: "confirm", Signer: f, Target: t, Hash: hash, Pw: pw}, kp{})
+}
+func (h *hist) bank(kind string, s, to int, amt int64) *op {
+	return h.do(op{Kind: kind, Signer: s, To: to, Amt: amt}, kp{})
+}
+
+// guard sets up account v by construction: record created disabled, lists filled, then enabled
+func (h *hist) guard(v int, mode uint64, pwd, wl, lim bool, custs, white []int, cap int64) {
+	h.keyed(op{Kind: "create_custody", Signer: v, Set: []uint64{0, mode, b2u(pwd), b2u(wl), b2u(lim)}}, "", true, "")
+	if custs != nil {
+		h.keyed(op{Kind: "add_custodians", Signer: v, Adds: custs}, "", true, "")
+	}
+	if white != nil {
+		h.keyed(op{Kind: "add_whitelist", Signer: v, Adds: white}, "", true, "")
+	}
+	if cap >= 0 {
+		h.keyed(op{Kind: "add_limits", Signer: v, Denom: denom, Amt: cap, Limit: "1h"}, "", true, "")
+	}
+	h.keyed(op{Kind: "create_custody", Signer: v, Set: []uint64{1, mode, b2u(pwd), b2u(wl), b2u(lim)}}, "", true, "")
+}
+
+var modes = []uint64{0, 1, 34, 50, 51, 67, 100, 100, 150}
+var settingKinds = []string{"create_custody", "disable_custody", "drop_custody", "add_custodians", "remove_custodians", "drop_custodians",
+	"add_whitelist", "remove_whitelist", "drop_whitelist", "add_limits", "remove_limits", "drop_limits"}
+
+func upperVariant(h string) string { return strings.ToUpper(h[:8]) + h[8:] }
+
+func settingOp(kind string, signer int) op {
+	o := op{Kind: kind, Signer: signer}
+	switch kind {
+	case "create_custody":
+		o.Set = []uint64{1, 0, 0, 0, 0}
+	case "add_custodians", "add_whitelist":
+		o.Adds = []int{4}
+	case "remove_custodians":
+		o.Rem = 2
+	case "remove_whitelist":
+		o.Rem = 5
+	case "add_limits":
+		o.Denom, o.Amt, o.Limit = denom, 999999, "1h"
+	case "remove_limits":
+		o.Denom = denom
+	}
+	return o
+}
+
+// ---- directed histories: every settings message type x every way of naming the guarded account;
+// every order of approve / decline / confirm by custodians and strangers; every send path
+func directed(newHist func(label string) *hist, finish func(*hist)) {
+	V, A := 0, 1
+	for _, kind := range settingKinds {
+		for _, how := range []string{"self_wrong", "self_right", "t_norec", "t_disabled", "t_next", "t_other"} {
+			h := newHist("settings/" + kind + "/" + how)
+			h.guard(V, 50, false, true, false, []int{2, 3}, []int{5}, 1000)
+			tgt := h.w.addrs[V].String()
+			switch how {
+			case "self_wrong":
+				h.keyed(settingOp(kind, V), "", false, "")
+			case "self_right":
+				h.keyed(settingOp(kind, V), "", true, "")
+			case "t_norec":
+				h.keyed(settingOp(kind, 4), tgt, false, "")
+			case "t_disabled":
+				h.keyed(op{Kind: "create_custody", Signer: A, Set: []uint64{0, 50, 0, 0, 0}}, "", true, tgt)
+				h.keyed(settingOp(kind, A), tgt, false, "")
+			case "t_next":
+				h.keyed(op{Kind: "create_custody", Signer: A, Set: []uint64{1, 50, 0, 0, 0}}, "", true, tgt)
+				h.keyed(settingOp(kind, A), tgt, true, tgt)
+			case "t_other":
+				h.keyed(op{Kind: "create_custody", Signer: A, Set: []uint64{1, 50, 0, 0, 0}}, "", true, "")
+				h.keyed(settingOp(kind, A), tgt, true, "")
+			}
+			h.bank("bank_send", V, 5, 100)
+			h.bank("bank_send", V, 4, 100)
+			finish(h)
+		}
+	}
+	for _, mode := range []uint64{50, 100} {
+		for _, pwd := range []bool{false, true} {
+			for sc := 0; sc < 9; sc++ {
+				h := newHist(fmt.Sprintf("votes/mode%d/pwd%v/%d", mode, pwd, sc))
+				h.guard(V, mode, pwd, false, false, []int{2, 3}, nil, -1)
+				x := h.send(V, 5, 1000, 1, false, []int64{400}).Hash
+				switch sc {
+				case 0: // the honest run: both custodians, the right password
+					if pwd {
+						h.confirm(V, V, x, pword(1))
+					}
+					h.approve(2, V, x)
+					h.approve(2, V, x)
+					h.approve(3, V, x)
+				case 1: // strangers only
+					if pwd {
+						h.confirm(V, V, x, pword(1))
+					}
+					h.approve(4, V, x)
+					h.approve(5, V, x)
+				case 2: // one custodian, twice, with another spelling of the same hash
+					if pwd {
+						h.confirm(V, V, x, pword(1))
+					}
+					h.approve(2, V, x)
+					h.approve(2, V, upperVariant(x))
+				case 3: // declines by a stranger and twice by a custodian
+					h.decline(4, V, x)
+					h.decline(2, V, x)
+					h.decline(2, V, upperVariant(x))
+					h.approve(2, V, x)
+				case 4: // a stranger confirms with a wrong password, then the custodians approve
+					h.confirm(4, V, x, "wrong-pw")
+					h.approve(2, V, x)
+					h.approve(3, V, x)
+				case 5: // approvals first, a wrong password last
+					h.approve(2, V, x)
+					h.approve(3, V, x)
+					h.confirm(5, V, upperVariant(x), "wrong-pw")
+				case 6: // strangers vote, then the owner confirms
+					h.approve(4, V, x)
+					h.approve(5, V, x)
+					h.confirm(V, V, x, pword(1))
+				case 7: // a second request replaces the pending one
+					h.approve(2, V, x)
+					y := h.send(V, 4, 2000, 2, false, []int64{400}).Hash
+					h.approve(3, V, x)
+					h.approve(2, V, y)
+					if pwd {
+						h.confirm(V, V, y, pword(2))
+					}
+					h.approve(3, V, y)
+				case 8: // not enough: one of two at mode 100, plain bank paths meanwhile
+					h.approve(2, V, x)
+					h.bank("bank_send", V, 5, 10)
+					h.bank("multisend", V, 5, 10)
+					if pwd {
+						h.confirm(V, V, x, pword(1))
+					}
+				}
+				finish(h)
+			}
+		}
+	}
+	for sc := 0; sc < 5; sc++ {
+		h := newHist(fmt.Sprintf("paths/%d", sc))
+		switch sc {
+		case 0: // whitelist and limits, no custodians: plain sends are allowed but restricted
+			h.guard(V, 50, false, true, false, nil, []int{5}, 1000)
+			h.bank("bank_send", V, 5, 100)
+			h.bank("bank_send", V, 4, 100)
+			h.bank("multisend", V, 4, 100)
+		case 1: // custody send without custodians and password is paid out at once
+			h.guard(V, 50, false, true, true, []int{}, []int{5}, 1000)
+			h.send(V, 5, 100, 1, false, []int64{400})
+			h.send(V, 4, 100, 1, false, []int64{400})
+			h.send(V, 5, 5000, 1, false, []int64{400})
+			h.bank("bank_send", V, 5, 100)
+			h.bank("multisend", V, 5, 5000)
+		case 2: // custodians exist
+			h.guard(V, 50, false, true, true, []int{2, 3}, []int{5}, 1000)
+			h.bank("bank_send", V, 5, 100)
+			h.bank("multisend", V, 4, 5000)
+			x := h.send(V, 4, 5000, 1, false, []int64{400}).Hash
+			h.approve(2, V, x)
+		case 4: // the owner is in its own whitelist, the destination is not; tiny reward, one custodian
+			h.guard(V, 100, false, true, false, []int{}, []int{V, 5}, -1)
+			h.bank("bank_send", V, 4, 100)
+			h.bank("bank_send", V, V, 100)
+			h.bank("bank_send", V, 5, 100)
+			h.keyed(op{Kind: "add_custodians", Signer: V, Adds: []int{2}}, "", true, "")
+			h.bank("bank_send", V, 5, 100)
+			x := h.send(V, 5, 100, 1, false, []int64{200}).Hash
+			h.decline(2, V, x)
+			h.approve(3, V, x)
+		case 3: // removed custodians and whitelist entries stay in the map with value false
+			h.guard(V, 100, false, true, false, []int{2, 3}, []int{5, 4}, -1)
+			h.keyed(op{Kind: "remove_custodians", Signer: V, Rem: 3}, "", true, "")
+			h.keyed(op{Kind: "remove_whitelist", Signer: V, Rem: 4}, "", true, "")
+			x := h.send(V, 5, 100, 1, false, []int64{400}).Hash
+			h.approve(3, V, x)
+			h.approve(2, V, x)
+			h.bank("bank_send", V, 4, 10)
+		}
+		finish(h)
+	}
+}
+
+// ---- random histories
+func random(h *hist) {
+	g, w := h.r, h.w
+	owner := g.Intn(2) // accounts 0 and 1 are the wealthy owners
+	other := 1 - owner
+	custs := []int{2, 3}
+	if g.Chance(40) {
+		custs = append(custs, 4)
+	}
+	if g.Chance(15) {
+		custs = custs[:1]
+	}
+	mode := modes[g.Intn(len(modes))]
+	usePw, useWl, useLim := g.Chance(35), g.Chance(40), g.Chance(25)
+	if g.Chance(90) {
+		var white []int
+		cap := int64(-1)
+		if useWl || g.Chance(20) {
+			white = []int{5, other}[:1+g.Intn(2)]
+		}
+		if useLim || g.Chance(20) {
+			cap = []int64{100, 1000, 100000}[g.Intn(3)]
+		}
+		cs := custs
+		if g.Chance(8) {
+			cs = nil
+		}
+		h.guard(owner, mode, usePw, useWl, useLim, cs, white, cap)
+	}
+	if g.Chance(25) { // the other owner has a custody of its own, possibly naming the first owner as next controller
+		next := ""
+		if g.Chance(60) {
+			next = w.addrs[owner].String()
+		}
+		h.keyed(op{Kind: "create_custody", Signer: other, Set: []uint64{b2u(g.Chance(80)), 50, 0, 0, 0}}, "", true, next)
+	}
+	who := func() int { // custodians mostly, strangers often
+		switch g.Intn(10) {
+		case 0, 1, 2, 3, 4:
+			return custs[g.Intn(len(custs))]
+		case 5, 6:
+			return 4
+		case 7:
+			return 5
+		case 8:
+			return other
+		}
+		return g.Intn(N)
+	}
+	pickHash := func() (string, int) {
+		if len(h.sends) == 0 {
+			h.send(owner, 5, 500, g.Intn(12), false, []int64{600})
+		}
+		if g.Chance(3) {
+			return "zz", owner
+		}
+		k := len(h.sends) - 1
+		if g.Chance(10) {
+			k = g.Intn(len(h.sends))
+		}
+		x := h.sends[k]
+		if g.Chance(25) {
+			x = upperVariant(x)
+		}
+		t := h.sendBy[k]
+		if g.Chance(3) {
+			t = g.Intn(N)
+		}
+		return x, t
+	}
+	nops := 6 + g.Intn(14)
+	for i := 0; i < nops; i++ {
+		switch x := g.Intn(100); {
+		case x < 18: // custody send by an owner
+			s := owner
+			if g.Chance(12) {
+				s = other
+			}
+			rew := []int64{[]int64{0, 199, 400, 600, 601, 1000, 5000}[g.Intn(7)]}
+			if g.Chance(4) {
+				rew = nil
+			}
+			h.send(s, []int{5, 5, other, 4, 2}[g.Intn(5)], []int64{1, 50, 500, 2000, 150000, 999999, 2000000}[g.Intn(7)], g.Intn(12), g.Chance(10), rew)
+		case x < 46:
+			x, t := pickHash()
+			h.approve(who(), t, x)
+		case x < 54:
+			x, t := pickHash()
+			h.decline(who(), t, x)
+		case x < 64:
+			x, t := pickHash()
+			pw := "wrong-pw"
+			if g.Chance(55) {
+				pw = h.pws[len(h.pws)-1]
+			}
+			s := t
+			if g.Chance(50) {
+				s = who()
+			}
+			h.confirm(s, t, x, pw)
+		case x < 72:
+			s := owner
+			if g.Chance(15) {
+				s = g.Intn(N)
+			}
+			h.bank("bank_send", s, []int{5, other, 4, 2}[g.Intn(4)], []int64{1, 50, 500, 2000, 150000}[g.Intn(5)])
+		case x < 77:
+			s := owner
+			if g.Chance(15) {
+				s = g.Intn(N)
+			}
+			h.bank("multisend", s, []int{5, other, 4}[g.Intn(3)], []int64{1, 50, 500, 2000, 150000}[g.Intn(5)])
+		default: // settings change: by the owner (right / wrong key), by a stranger or the other owner naming the owner as target
+			signer, tgt := owner, ""
+			switch g.Intn(10) {
+			case 0, 1, 2:
+				signer, tgt = []int{4, 5, other, 2}[g.Intn(4)], w.addrs[owner].String()
+			case 3:
+				signer, tgt = other, w.addrs[owner].String()
+			case 4:
+				tgt = []string{garbage, w.addrs[other].String(), w.addrs[owner].String()}[g.Intn(3)]
+			}
+			o := op{Kind: settingKinds[g.Intn(len(settingKinds))], Signer: signer}
+			switch o.Kind {
+			case "create_custody":
+				o.Set = []uint64{b2u(g.Chance(75)), modes[g.Intn(len(modes))], b2u(g.Chance(30)), b2u(g.Chance(30)), b2u(g.Chance(15))}
+			case "add_custodians", "add_whitelist":
+				o.Adds = [][]int{{4}, {5}, {2, 3}, {}, {signer}}[g.Intn(5)]
+			case "remove_custodians", "remove_whitelist":
+				o.Rem = []int{2, 3, 4, 5}[g.Intn(4)]
+			case "add_limits":
+				o.Denom, o.Amt, o.Limit = []string{"ukex", "uusd"}[g.Intn(2)], []int64{0, 100, 100000}[g.Intn(3)], []string{"1h", "", "bad"}[g.Intn(3)]
+			case "remove_limits":
+				o.Denom = []string{"ukex", "uusd"}[g.Intn(2)]
+			}
+			next := ""
+			switch g.Intn(6) {
+			case 0:
+				next = w.addrs[g.Intn(N)].String()
+			case 1:
+				next = garbage
+			}
+			h.keyed(o, tgt, g.Chance(60), next)
+		}
+	}
+}
+
 func main() {
 	outDir := flag.String("out", ".", "output directory")
-	n := flag.Int("n", 300, "number of histories")
+	n := flag.Int("n", 300, "number of random histories (on top of the directed ones)")
 	flag.Parse()
 	out := hx.Out{Dir: *outDir}
 	seed := hx.Seed()
-	r := hx.NewRng(seed)
+	// hx.NewRng(s) and hx.NewRng(s+1) produce shifted copies of one stream; decorrelate the seeds
+	r := hx.NewRng(hx.NewRng(seed).Next() ^ 0xC17C17C17)
 
 	app := hx.NewApp()
 	base := hx.Ctx(app, 10, 1700000000)
@@ -514,203 +891,28 @@ func main() {
 
 	var cases []string
 	var js []interface{}
-	for hi := 0; hi < *n; hi++ {
+	newHist := func(label string) *hist {
 		ctx, _ := base.CacheContext()
-		g := &gen{r: r.Fork(), w: w, hist: hi}
-		for i := range g.sec {
-			g.sec[i] = -1
+		h := &hist{w: w, ctx: ctx, deco: deco, dist: dist, id: len(cases), label: label}
+		for i := range h.sec {
+			h.sec[i] = -1
 		}
-		prev := w.observe(ctx)
-		var steps []string
-		var ops []op
-		run := func(o op, k kp, commitKey int, keyAcct int) *op {
-			g.txn++
-			if o.TxBytes == "" {
-				o.TxBytes = g.txBytes()
-			}
-			o.Filler = g.r.Chance(15)
-			msg, coq := w.build(&o, k)
-			w.exec(ctx, deco, &o, msg)
-			cur := w.observe(ctx)
-			code := map[string]int{"ok": 0, "rejected": 1, "panic": 2}[o.Outcome]
-			steps = append(steps, fmt.Sprintf("(%s, %d, %s)", coq, code, hx.List(diff(prev, cur))))
-			prev = cur
-			dist.Inc(o.Kind + ":" + o.Outcome)
-			if o.Outcome == "ok" && commitKey >= 0 && keyAcct >= 0 {
-				g.sec[keyAcct] = commitKey
-			}
-			ops = append(ops, o)
-			return &ops[len(ops)-1]
-		}
-		tgtAcct := func(signer int, tgt string) int {
-			if tgt == "" {
-				return signer
-			}
-			if i, ok := w.idx[tgt]; ok {
-				return i
-			}
-			return -1
-		}
-		keyedOp := func(o op, tgt string, right bool) *op {
-			k, j := g.keyed(o.Signer, tgt, right)
-			ka := tgtAcct(o.Signer, tgt)
-			if o.Kind == "create_custody" {
-				ka = o.Signer
-			}
-			if o.Kind == "disable_custody" || o.Kind == "drop_custody" {
-				j, ka = -1, -1
-			}
-			return run(o, k, j, ka)
-		}
-		owner := g.r.Intn(2) // accounts 0 and 1 are the wealthy owners
-		other := 1 - owner
-		custs := []int{2, 3}
-		if g.r.Chance(40) {
-			custs = append(custs, 4)
-		}
-		if g.r.Chance(15) {
-			custs = custs[:1]
-		}
-		mode := modes[g.r.Intn(len(modes))]
-		usePw, useWl, useLim := g.r.Chance(35), g.r.Chance(40), g.r.Chance(25)
-		// ---- set-up by construction: create disabled, fill lists, enable
-		if g.r.Chance(85) {
-			keyedOp(op{Kind: "create_custody", Signer: owner, Set: []uint64{0, mode, b2u(usePw), b2u(useWl), b2u(useLim)}}, "", true)
-			if g.r.Chance(90) {
-				keyedOp(op{Kind: "add_custodians", Signer: owner, Adds: custs}, "", true)
-			}
-			if useWl || g.r.Chance(20) {
-				keyedOp(op{Kind: "add_whitelist", Signer: owner, Adds: []int{5, other}[:1+g.r.Intn(2)]}, "", true)
-			}
-			if useLim || g.r.Chance(20) {
-				keyedOp(op{Kind: "add_limits", Signer: owner, Denom: denom, Amt: []int64{100, 1000, 100000}[g.r.Intn(3)], Limit: "1h"}, "", true)
-			}
-			if g.r.Chance(92) {
-				keyedOp(op{Kind: "create_custody", Signer: owner, Set: []uint64{1, mode, b2u(usePw), b2u(useWl), b2u(useLim)}}, "", true)
-			}
-		}
-		if g.r.Chance(25) { // the other owner has a custody of its own, possibly naming the first owner as next controller
-			k, j := g.keyed(other, "", true)
-			if g.r.Chance(60) {
-				k.Next = w.addrs[owner].String()
-			}
-			run(op{Kind: "create_custody", Signer: other, Set: []uint64{b2u(g.r.Chance(80)), 50, 0, 0, 0}}, k, j, other)
-		}
-		nops := 6 + g.r.Intn(14)
-		for i := 0; i < nops; i++ {
-			who := func() int { // custodians mostly, strangers often
-				switch g.r.Intn(10) {
-				case 0, 1, 2, 3, 4:
-					return custs[g.r.Intn(len(custs))]
-				case 5, 6:
-					return 4
-				case 7:
-					return 5
-				case 8:
-					return other
-				}
-				return g.r.Intn(N)
-			}
-			pickHash := func() (string, int) {
-				if len(g.sends) == 0 || g.r.Chance(5) {
-					return "zz", owner
-				}
-				k := len(g.sends) - 1
-				if g.r.Chance(15) {
-					k = g.r.Intn(len(g.sends))
-				}
-				h := g.sends[k]
-				if g.r.Chance(25) {
-					h = upperVariant(h)
-				}
-				t := g.sendBy[k]
-				if g.r.Chance(5) {
-					t = g.r.Intn(N)
-				}
-				return h, t
-			}
-			switch x := g.r.Intn(100); {
-			case x < 16: // custody send by an owner
-				s := owner
-				if g.r.Chance(12) {
-					s = other
-				}
-				pwi := g.r.Intn(12)
-				pw := sha(pword(pwi))
-				if g.r.Chance(10) {
-					pw = pword(pwi)
-				}
-				rew := []int64{[]int64{0, 199, 200, 400, 600, 601, 1000, 5000}[g.r.Intn(8)]}
-				if g.r.Chance(4) {
-					rew = nil
-				}
-				to := []int{5, 5, other, 4, 2}[g.r.Intn(5)]
-				amt := []int64{1, 50, 500, 2000, 150000, 999999, 2000000}[g.r.Intn(7)]
-				o := run(op{Kind: "custody_send", Signer: s, To: to, Amt: amt, Pw: pw, Rew: rew}, kp{}, -1, -1)
-				g.sends = append(g.sends, o.Hash)
-				g.sendBy = append(g.sendBy, s)
-				g.pws = append(g.pws, pword(pwi))
-			case x < 46:
-				h, t := pickHash()
-				run(op{Kind: "approve", Signer: who(), Target: t, Hash: h}, kp{}, -1, -1)
-			case x < 54:
-				h, t := pickHash()
-				run(op{Kind: "decline", Signer: who(), Target: t, Hash: h}, kp{}, -1, -1)
-			case x < 64:
-				h, t := pickHash()
-				pw := "wrong-pw"
-				if len(g.pws) > 0 && g.r.Chance(55) {
-					pw = g.pws[len(g.pws)-1]
-				}
-				s := t
-				if g.r.Chance(50) {
-					s = who()
-				}
-				run(op{Kind: "confirm", Signer: s, Target: t, Hash: h, Pw: pw}, kp{}, -1, -1)
-			case x < 72:
-				s := owner
-				if g.r.Chance(15) {
-					s = g.r.Intn(N)
-				}
-				run(op{Kind: "bank_send", Signer: s, To: []int{5, other, 4, 2}[g.r.Intn(4)], Amt: []int64{1, 50, 500, 2000, 150000}[g.r.Intn(5)]}, kp{}, -1, -1)
-			case x < 77:
-				s := owner
-				if g.r.Chance(15) {
-					s = g.r.Intn(N)
-				}
-				run(op{Kind: "multisend", Signer: s, To: []int{5, other, 4}[g.r.Intn(3)], Amt: []int64{1, 50, 500, 2000, 150000}[g.r.Intn(5)]}, kp{}, -1, -1)
-			default: // settings change: by the owner (right / wrong key), by a stranger or the other owner naming the owner as target
-				signer, tgt := owner, ""
-				switch g.r.Intn(10) {
-				case 0, 1, 2:
-					signer, tgt = []int{4, 5, other, 2}[g.r.Intn(4)], w.addrs[owner].String()
-				case 3:
-					signer, tgt = other, w.addrs[owner].String()
-				case 4:
-					tgt = []string{garbage, w.addrs[other].String(), w.addrs[owner].String()}[g.r.Intn(3)]
-				}
-				right := g.r.Chance(60)
-				kinds := []string{"create_custody", "disable_custody", "drop_custody", "add_custodians", "remove_custodians", "drop_custodians",
-					"add_whitelist", "remove_whitelist", "drop_whitelist", "add_limits", "remove_limits", "drop_limits"}
-				o := op{Kind: kinds[g.r.Intn(len(kinds))], Signer: signer}
-				switch o.Kind {
-				case "create_custody":
-					o.Set = []uint64{b2u(g.r.Chance(75)), modes[g.r.Intn(len(modes))], b2u(g.r.Chance(30)), b2u(g.r.Chance(30)), b2u(g.r.Chance(15))}
-				case "add_custodians", "add_whitelist":
-					o.Adds = [][]int{{4}, {5}, {2, 3}, {}, {signer}}[g.r.Intn(5)]
-				case "remove_custodians", "remove_whitelist":
-					o.Rem = []int{2, 3, 4, 5}[g.r.Intn(4)]
-				case "add_limits":
-					o.Denom, o.Amt, o.Limit = []string{"ukex", "uusd"}[g.r.Intn(2)], []int64{0, 100, 100000}[g.r.Intn(3)], []string{"1h", "", "bad"}[g.r.Intn(3)]
-				case "remove_limits":
-					o.Denom = []string{"ukex", "uusd"}[g.r.Intn(2)]
-				}
-				keyedOp(o, tgt, right)
-			}
-		}
-		cases = append(cases, fmt.Sprintf("C17 %s %s", z64list(bals0), hx.List(steps)))
-		js = append(js, map[string]interface{}{"history": hi, "initial_balances": bals0, "accounts": "0,1 owners; 2,3,(4) custodians; 4,5 strangers/destinations; 6,7 filler", "ops": ops})
-		dist.Inc(fmt.Sprintf("history_len:%02d", len(ops)/5*5))
+		h.prev = w.observe(ctx)
+		return h
+	}
+	finish := func(h *hist) {
+		cases = append(cases, fmt.Sprintf("C17 %s %s", z64list(bals0[:N]), hx.List(h.steps)))
+		js = append(js, map[string]interface{}{"history": h.id, "label": h.label, "initial_balances": bals0[:N],
+			"accounts": "0,1 owners; 2,3,(4) custodians; 4,5 strangers/destinations; 6,7 filler", "ops": h.ops})
+		dist.Inc(fmt.Sprintf("history_len:%02d", len(h.ops)/5*5))
+	}
+	directed(newHist, finish)
+	nd := len(cases)
+	for hi := 0; hi < *n; hi++ {
+		h := newHist("random")
+		h.r = r.Fork()
+		random(h)
+		finish(h)
 	}
 
 	var f strings.Builder
@@ -721,6 +923,6 @@ func main() {
 	out.WriteFile("cases.txt", strings.Join(cases, "\n")+"\n")
 	out.WriteJSON("meta.json", map[string]string{"case_type": "c17_case", "mismatch_fn": "c17_mismatches minrew", "violation_fn": "c17_violations"})
 	out.WriteJSON("cases.json", js)
-	out.WriteJSON("dist.json", map[string]interface{}{"seed": seed, "histories": len(js), "by_kind_and_outcome": dist})
+	out.WriteJSON("dist.json", map[string]interface{}{"seed": seed, "histories": len(js), "directed": nd, "random": *n, "by_kind_and_outcome": dist})
 	fmt.Fprintf(os.Stderr, "c17: %d histories\n", len(js))
 }
